@@ -148,7 +148,10 @@ fn lookup_block_or_reference(parser: &mut Parser, recovery: TokenSet) {
     } else if parser.matches(2, Kind::Semi) {
         parser.in_node(AstKind::LookupRefNode, |parser| {
             assert!(parser.eat(Kind::LookupKw));
-            parser.eat_remap(TokenSet::IDENT_LIKE, AstKind::Ident);
+            if !parser.eat_remap(TokenSet::IDENT_LIKE, AstKind::Ident) {
+                // e.g. `lookup ;;`
+                parser.err("Expected lookup name");
+            }
             parser.expect_semi();
         })
     } else {
